@@ -475,6 +475,17 @@ func callMsgAPIErr(api int, ms []*schema.Message, errAt int) (o MObs) {
 				if w, g := msgCallObs(out, err), msgCallObs(got, gerr); !mobsEqual(w, g) {
 					secondCall = fmt.Sprintf("the chunk list converted for an invoke-only successor node (chain called with Stream) gives %s; chain.Invoke on the streaming node alone gives %s", js(g), js(w))
 				}
+				// and the third: the chunk list as the INPUT stream of a chain of one invoke-only node, called with Collect
+				ch3 := compose.NewChain[*schema.Message, *schema.Message]()
+				ch3.AppendLambda(compose.InvokableLambda(func(ctx context.Context, in *schema.Message) (*schema.Message, error) { return in, nil }))
+				r3, cerr := ch3.Compile(ctx)
+				if cerr != nil {
+					panic("harness: chain does not compile: " + cerr.Error())
+				}
+				got3, gerr3 := r3.Collect(ctx, streamOf(ms, -1))
+				if w, g := msgCallObs(out, err), msgCallObs(got3, gerr3); !mobsEqual(w, g) && secondCall == "" {
+					secondCall = fmt.Sprintf("the chunk list as the input stream of an invoke-only node (chain called with Collect) gives %s; chain.Invoke on the streaming node gives %s", js(g), js(w))
+				}
 			}
 		}
 	})
